@@ -1191,8 +1191,15 @@ func otlParseVR(s string) *gtab.GposValueRecord {
 	return v
 }
 
+// otlVRNilAsZero makes otlShowVR print a nil record as a zero record (the normal form of the
+// GPOS 1.2 / 2.1 / 2.2 readers); only set inside otl.gpos.rt.
+var otlVRNilAsZero bool
+
 func otlShowVR(v *gtab.GposValueRecord) string {
 	if v == nil {
+		if otlVRNilAsZero {
+			return "0.0.0.0.0.0.0.0"
+		}
 		return "-"
 	}
 	rv := reflect.ValueOf(v).Elem()
@@ -1381,6 +1388,34 @@ func init() {
 		out := canonPanic(guard(func() string { return "ok:" + otlShowBytes(gtab.VerifSubtableEncode(st)) }))
 		return fmt.Sprintf("%s;len=%d", out, n)
 	}
+	// every GPOS subtable through the real code: Encode (a panic is a loud refusal) then Read gives the
+	// subtable back, value records compared with nil = zeros
+	ops["otl.gpos.rt"] = func(f Fields) string {
+		return canonPanic(guard(func() string {
+			st := otlGposFromFields(f)
+			var b []byte
+			if guard(func() string { b = gtab.VerifSubtableEncode(st); return "" }) != "" {
+				return "ok"
+			}
+			tp := map[string]int{"11": 1, "12": 1, "21": 2, "22": 2, "31": 3, "41": 4, "61": 6}[f["st"]]
+			out, err := gtab.VerifReadGposSubtable(b, 0, uint16(tp))
+			if err != nil {
+				return "fail:" + errKind(err)
+			}
+			otlVRNilAsZero = true
+			defer func() { otlVRNilAsZero = false }()
+			want, got := otlShowGpos(st), otlShowGpos(out)
+			if want != got {
+				k := 0
+				for k < len(want) && k < len(got) && want[k] == got[k] {
+					k++
+				}
+				lo, hiW, hiG := max(0, k-20), min(len(want), k+30), min(len(got), k+30)
+				return fmt.Sprintf("fail:wrote[%s]read[%s]", want[lo:hiW], got[lo:hiG])
+			}
+			return "ok"
+		}))
+	}
 	ops["otl.gpos.read"] = func(f Fields) string {
 		return canonPanic(guard(func() string {
 			st, err := gtab.VerifReadGposSubtable(f.Hex("data"), 0, uint16(f.Int("type")))
@@ -1415,7 +1450,8 @@ func otlGenAnchor(r *Rng) string {
 	if r.Chance(1, 5) {
 		return "0.0"
 	}
-	return fmt.Sprintf("%d.%d", Pick(r, []int{0, 1, 65535, 32768, r.Intn(65536), r.Intn(500)}), Pick(r, []int{0, 7, 65535, r.Intn(65536)}))
+	coord := func() int { return Pick(r, []int{0, 0, 1, 65535, 32768, 32767, r.Intn(500), 65536 - 1 - r.Intn(500), r.Intn(65536)}) }
+	return fmt.Sprintf("%d.%d", coord(), coord())
 }
 
 func otlSmallCov(r *Rng, maxGlyphs int) []otlRun {
@@ -1545,6 +1581,9 @@ func otlGenGposMark(c *Ctx, i int) {
 	c.Stat("gposmark.kind", st+":"+what)
 	out := c.Case(Verdict, "otl.gpos.encode", args, true)
 	c.Stat("gposmark.encode-outcome", outcomeClass(out))
+	if what != "count-mismatch" {
+		c.Case(Direct, "otl.gpos.rt", args, true)
+	}
 	if !strings.HasPrefix(out, "ok:") {
 		return
 	}
@@ -1656,6 +1695,9 @@ func otlGenGpos(c *Ctx, i int) {
 	}
 	out := c.Case(Verdict, "otl.gpos.encode", args, true)
 	c.Stat("gpos.encode-outcome", outcomeClass(out))
+	if what == "regular" || strings.HasPrefix(what, "boundary") {
+		c.Case(Direct, "otl.gpos.rt", args, true)
+	}
 	if !strings.HasPrefix(out, "ok:") {
 		return
 	}
@@ -2041,6 +2083,22 @@ func otlGenGdef(c *Ctx, i int) {
 		}
 		gc, mac, sets = otlRunsString(rs, true), "5:1", "-"
 		what = []string{"boundary-ok", "boundary-refused"}[i]
+	case 6, 7, 8, 9: // three / four mark glyph sets: the third coverage table lies 65536-2 / 65536 / 65536+2 bytes
+		// behind the first one (format 1, 4+2m bytes: even gids 0..32762 = 32768 bytes)
+		step := func(from, m int) string {
+			q := make([]string, m)
+			for k := range q {
+				q[k] = strconv.Itoa(from + 2*k)
+			}
+			return strings.Join(q, ",")
+		}
+		d := []int{-1, 0, 1, 0}[i-6]
+		gc, mac = "3:1,5:3", "-"
+		sets = step(0, 16382) + ";" + step(1, 16382+d) + ";5,9"
+		if i == 9 {
+			sets = "40000;" + sets // first offset 20 instead of 16
+		}
+		what = "offsets-mod-65536"
 	case 2, 3, 4, 5: // the same with mark glyph sets (header 14 bytes), and far above the limit
 		n := []int{32757, 32758, 40000, 40000}[i-2] // 14 + 6 + 2n = 65534 / 65536
 		var rs []otlRun
